@@ -304,6 +304,6 @@ pub fn run(ctx: &Ctx) {
         info.nontrivial_if(*n >= 5);
         Ok(())
     });
-    ctx.explore("bg4", ctx.tier.pick(3_000, 60_000), 16, || bytes_strategy(0, 140_000).prop_map(|data| Bg4Case { data }), bg4_oracle);
-    ctx.explore("roundtrip", ctx.tier.pick(1_600, 40_000), 16, rt_strategy, rt_oracle);
+    ctx.explore("bg4", ctx.tier.pick(12_000, 60_000), 16, || bytes_strategy(0, 140_000).prop_map(|data| Bg4Case { data }), bg4_oracle);
+    ctx.explore("roundtrip", ctx.tier.pick(8_000, 40_000), 16, rt_strategy, rt_oracle);
 }
